@@ -171,6 +171,8 @@ class TokfmtModel:
             return vals[-1]
         if isinstance(e, ast.UnaryOp) and isinstance(e.op, ast.Not):
             return not self._ev(e.operand, env, c)
+        if isinstance(e, ast.IfExp):
+            return self._ev(e.body, env, c) if self._ev(e.test, env, c) else self._ev(e.orelse, env, c)
         if isinstance(e, ast.Compare):
             left = self._ev(e.left, env, c)
             res = True
